@@ -15,8 +15,12 @@ expression engine `ure.c` (`Exec`: flags and text to a match interval).
 
 Abstract cache state: for every page number the list of cached pages in hash-chain order (most
 recently used first; all pages of one number share a bucket, so their relative order is exactly the
-order in the bucket) and the `ttx_page_stat` fields `n_subpages` (uint8_t), `subno_min`,
+order in the bucket) and the `ttx_page_stat` fields `n_subpages` (uint16_t since 5e41e82), `subno_min`,
 `subno_max` (uint16_t since F5a) as cache.c maintains them.
+
+State of the C code modelled: after the repairs a500ea8 (F5a), e6cbe38 (F5b), 5e41e82 (C17-D3: "first page of
+this number" is `1 == n_subpages`, counter 16 bits wide), ed2772e (C17-D4: the walk clamps to the first
+sub-page in walking direction instead of leaving the page), ce86777 (C17-D5: exact look-up inside the walk).
 -/
 namespace Zvbi.Search
 
@@ -51,7 +55,7 @@ deriving Repr, Inhabited, DecidableEq
 
 /-- `struct ttx_page_stat` fields used by the walk -/
 structure Stat where
-  nSub : UInt8 := 0      -- uint8_t n_subpages
+  nSub : UInt16 := 0     -- uint16_t n_subpages (uint8_t before 5e41e82)
   subMin : UInt16 := 0   -- uint16_t subno_min  (uint8_t before F5a)
   subMax : UInt16 := 0   -- uint16_t subno_max
 deriving DecidableEq, Repr, Inhabited
@@ -105,11 +109,12 @@ def removeFirst (p : Entry → Bool) : List Entry → Option (Entry × List Entr
 
 /-- `cache_network_add_page` on the statistics -/
 def Stat.add (st : Stat) (s : Nat) : Stat :=
-  { nSub := st.nSub + 1,                                   -- ++ps->n_subpages (uint8_t: 255 + 1 = 0)
-    subMin := if st.subMin = 0 /- none yet -/ ∨ s < st.subMin.toNat then s.toUInt16 else st.subMin,
-    subMax := if s > st.subMax.toNat then s.toUInt16 else st.subMax }
+  let n := st.nSub + 1                                     -- ++ps->n_subpages (uint16_t: 65535 + 1 = 0)
+  { nSub := n,
+    subMin := if n = 1 /- none before -/ ∨ s < st.subMin.toNat then s.toUInt16 else st.subMin,
+    subMax := if n = 1 ∨ s > st.subMax.toNat then s.toUInt16 else st.subMax }
 
-/-- `cache_network_remove_page` on the statistics (uint8_t decrement) -/
+/-- `cache_network_remove_page` on the statistics (uint16_t decrement) -/
 def Stat.remove (st : Stat) : Stat := { st with nSub := st.nSub - 1 }
 
 def put (c : Cache) (pgno subno : Nat) (func : Int) (text : Text) (tag : Nat := 0) : Cache :=
@@ -135,6 +140,15 @@ def getPage (c : Cache) (pgno subno : Int) : Option Entry × Cache :=
   | none => (none, c)
   | some (e, rest) => (some e, c.setSlot p ⟨sl.stat, e :: rest⟩ c.nCached)
 
+/-- `page_by_pgno (ca, cn, pgno, subno, -1)` + `cache_page_ref` as the walk calls it since ce86777: exact
+    sub-page number, no wildcard, no page number check; the page found moves to the head of its chain -/
+def getExact (c : Cache) (pgno subno : Int) : Option Entry × Cache :=
+  let p := pgno.toNat
+  let sl := c.slots p
+  match removeFirst (fun e => (e.subno : Int) = subno) sl.chain with
+  | none => (none, c)
+  | some (e, rest) => (some e, c.setSlot p ⟨sl.stat, e :: rest⟩ c.nCached)
+
 /-! ## `_vbi_cache_foreach_page` -/
 
 inductive Res where
@@ -153,11 +167,17 @@ def inRange (st : Stat) (subno : Int) : Bool :=
   st.nSub != 0 && (st.subMin.toNat : Int) ≤ subno && subno ≤ (st.subMax.toNat : Int)
 
 /-- inner `while` loop of the walk. `none`: out of fuel; `some none`: `return -1`;
-    `some (some (pgno, subno, wrapped))`: loop left at that position -/
+    `some (some (pgno, subno, wrapped))`: loop left at that position (by its condition, or by one of the two
+    `break`s added in ed2772e: still on a page number with cached subpages but before their range in walking
+    direction -> continue with the first subpage) -/
 def skip (c : Cache) (dir : Int) : Nat → Int → Int → Bool → Option (Option (Int × Int × Bool))
   | 0, _, _, _ => none
   | n + 1, pgno, subno, wrapped =>
     if inRange (c.stat pgno) subno then some (some (pgno, subno, wrapped))
+    else if (c.stat pgno).nSub ≠ 0 ∧ dir > 0 ∧ subno < ((c.stat pgno).subMin.toNat : Int) then
+      some (some (pgno, ((c.stat pgno).subMin.toNat : Int), wrapped))
+    else if (c.stat pgno).nSub ≠ 0 ∧ dir < 0 ∧ subno > ((c.stat pgno).subMax.toNat : Int) then
+      some (some (pgno, ((c.stat pgno).subMax.toNat : Int), wrapped))
     else if dir < 0 then
       if pgno - 1 < 0x100 then
         if wrapped then some none
@@ -188,7 +208,7 @@ def loop {σ : Type} (cb : Callback σ) (dir : Int) :
     | none => ⟨.outOfFuel, s, c⟩
     | some none => ⟨.ret (-1), s, c⟩
     | some (some (pgno', subno', wrapped')) =>
-      let (cp', c') := getPage c pgno' subno'
+      let (cp', c') := getExact c pgno' subno'
       loop cb dir n c' s pgno' subno' wrapped' cp'
 
 /-- `if ((cp = get (pgno, subno))) subno = cp->subno; else if (VBI_ANY_SUBNO == subno) subno = 0;` -/
